@@ -59,17 +59,26 @@ def _run_one(args):
     overlay = _apply(m)
     if overlay is None:
         return (m.name, m.kind, "n/a", "anchor text not found exactly once")
+    from .report import Result
+    Result.registry.clear()
     try:
         proj = Project(overlay=overlay)
         res = run_rules(prop, proj, "quick", 0)
-    except AnalysisError as exc:
-        if m.kind == "break" and "ANALYSIS-ERROR" in m.expect:
+    except (AnalysisError, Exception) as exc:
+        if isinstance(exc, SyntaxError):
+            return (m.name, m.kind, "n/a", f"mutant does not parse: {exc}")
+        partial = None
+        for r in Result.registry:
+            if r.prop == prop and r.violations and (partial is None or len(r.obligations) > len(partial.obligations)):
+                partial = r
+        if partial is not None:
+            res = partial           # same policy as the driver: violations already established stand
+        elif m.kind == "break" and "ANALYSIS-ERROR" in m.expect:
             return (m.name, m.kind, "fired", f"analysis error (accepted): {exc}")
-        return (m.name, m.kind, "error", f"ANALYSIS-ERROR: {exc}")
-    except SyntaxError as exc:
-        return (m.name, m.kind, "n/a", f"mutant does not parse: {exc}")
-    except Exception as exc:
-        return (m.name, m.kind, "error", f"internal error {exc!r}")
+        else:
+            return (m.name, m.kind, "error", f"{'ANALYSIS-ERROR' if isinstance(exc, AnalysisError) else 'internal error'}: {exc!r}")
+    if False:
+        pass
     rules = sorted({o.rule for o in res.violations})
     if m.kind == "break":
         if any(r in rules for r in m.expect) or (not m.expect and rules):
